@@ -300,8 +300,28 @@ Definition stsc_decode (raw : list (N * N * N)) : res stsc_box :=
   do st <- stsc_decode_loop (lenN raw) ([], 1, 0, []) 0 raw;
   let '(es, _, single, ids) := st in Ok (mkStsc es single ids).
 
-(* AddEntry(firstChunk, samplesPerChunk, sampleDescriptionID) *)
+(* AddEntry(firstChunk, samplesPerChunk, sampleDescriptionID) — the repaired text (cb02a8f): id 0 is refused
+   before anything is touched (`if sampleDescriptionID == 0 { return fmt.Errorf(...) }`), as DecodeStscSR does *)
 Definition stsc_add_entry (b : stsc_box) (fc sp sdi : N) : res stsc_box :=
+  if sdi =? 0 then Err else
+  match rev (sc_entries b) with
+  | [] => if negb (fc =? 1) then Err else Ok (mkStsc [mkEntry fc sp 1] sdi (sc_ids b))
+  | lastE :: _ =>
+    let n := lenN (sc_entries b) in
+    let '(single, ids) :=
+        if negb (sdi =? sc_single b) then
+          let '(single', ids') :=
+              if negb (sc_single b =? 0) then (0, repeat (sc_single b) (N.to_nat n))
+              else (sc_single b, sc_ids b) in
+          (single', ids' ++ [sdi])
+        else (sc_single b, sc_ids b) in
+    let fs := u32 (first_sample lastE + u32 (sub32 fc (first_chunk lastE) * spc lastE)) in
+    Ok (mkStsc (sc_entries b ++ [mkEntry fc sp fs]) single ids)
+  end.
+
+(* AddEntry as pinned (f87a9e4): no look at the id.  AddEntry(..., 0) after an entry with another id appended the
+   entry but not its id (sdi = single = 0 once the slice is in use): SampleDescriptionID one element short *)
+Definition stsc_add_entry_pinned (b : stsc_box) (fc sp sdi : N) : res stsc_box :=
   match rev (sc_entries b) with
   | [] => if negb (fc =? 1) then Err else Ok (mkStsc [mkEntry fc sp 1] sdi (sc_ids b))
   | lastE :: _ =>
